@@ -2416,6 +2416,11 @@ class VM:
 
         if isinstance(callee, JSFunction):
             self._invoke_js_function(callee, args, this_val or UNDEFINED)
+        elif isinstance(callee, JSBoundMethod):
+            # Built-in prototype method called without a receiver
+            result = callee(this_val or UNDEFINED, *args)
+            self.stack.append(result if result is not None else UNDEFINED)
+            return
         elif callable(callee):
             # Native function
             result = callee(*args)
